@@ -87,6 +87,8 @@ func init() {
 			"In exact mode a third of the plain commands are multi-line inputs whose last line recurs inside an earlier line, echoed in segments. " +
 			"Completion-pattern slices are handed over as literals or with spare capacity (len 1-3, cap = len+1..2), in dialogues whose last event waits for the prompt while earlier events that wait for a response of their own see prompt-looking progress lines first. " +
 			"A sixth of the echo-matched inputs end in 1-3 spaces/tabs (echoed like any byte). " +
+			"Blocks pushed with 1-3 eager sends (continuation prompt instead of a prompt) and ended by a plain command whose text occurs in the first eager line (here-document / banner terminator). " +
+			"In a third of the dialogues with a hidden input, that input's text (>= 3 chars; sometimes the host name) also occurs in an output line, a visible input or every prompt. " +
 			"Distinct = distinct descriptor hash.",
 		Assumptions: []string{
 			"device is causal (devsim.CLI): echoes visible input, reads hidden input without echo, reacts to a line only when its return arrived",
